@@ -464,7 +464,12 @@ def correspondence(chk: Check):
         rng = chk.rng("seq", k)
         n = rng.choice([0, 1, 2, 3, 5, 8, 13, 21])
         kind = rng.choice(c17.KINDS)
-        steps, _ = c17.drive(n, kind, seq_history(rng, n, 26 if chk.quick else 80), rng)
+        try:
+            steps, _ = c17.drive(n, kind, seq_history(rng, n, 26 if chk.quick else 80), rng)
+        except Exception as e:  # noqa: BLE001
+            chk.fail(f"%s:SequenceLearner:raises-{type(e).__name__}" % "C09",
+                     f"SequenceLearner(n={n}, {kind}) raised {type(e).__name__}: {str(e)[:120]} on a legal history", {"seq_n": n, "kind": kind, "case": k})
+            continue
         cases.append(c17.case_term(n, steps))
         metas.append({"n": n, "kind": kind, "ops": [list(s[0]) for s in steps]})
     mism, legal, errors = chk.coq_cases("seqcases", c17.PREAMBLE, "case", cases, "check", "is_legal")
@@ -493,6 +498,11 @@ def correspondence(chk: Check):
                 steps.append((op, out, o))
                 nca += op[0] == "ask" and not op[2]
         except OverflowError:
+            continue
+        except Exception as e:  # noqa: BLE001  (the implementation raised on a legal history)
+            chk.fail(f"%s:Learner1D:{op[0]}-raises-{type(e).__name__}" % "C09",
+                     f"Learner1D({cfg}) raised {type(e).__name__}: {str(e)[:120]} on {G.short(op)} after {len(steps)} ops",
+                     {"l1d_cfg": cfg, "ops": [I.op_json(s[0]) for s in steps] + [I.op_json(op)]})
             continue
         cases.append(I.case_term(l, rec, steps))
         metas.append({"cfg": cfg, "ops": [I.op_json(s[0]) for s in steps]})
